@@ -177,6 +177,46 @@ PROPS["C13"] = {
     "assumptions": ["exact arithmetic in the theorems"],
 }
 
+PROPS["C16"] = {
+    "title": "Scan conversion of a path matches point membership",
+    "gen_modules": ["Basis", "Section", "Walk", "PathContour"],
+    "corr_n": (20000, 400000),
+    "search_n": (2000, 40000),
+    "technique": "Lean 4 theorems about raycast_intercepts_on_line, the row / column closures of PathContour, remove_duplicate_intercepts (loop included, fuel = length + 1) "
+                 "and solve_basis_for_t, all translated from ray_cast_contour.rs / path_contour.rs / solve.rs on every run + bit-exact Float mirror of whole scan queries + search on the real code",
+    "level_text": "Partial. Proved for every curve table, every solver answer, every scan position and width: the ranges returned by intercepts_on_line and intercepts_on_column are inside "
+                  "[0, width], non-empty, strictly ascending and disjoint (intercepts_on_line_wellformed, intercepts_on_column_wellformed; clip_membership / clip_ranges_inside / clip_keeps_order "
+                  "for any closure and scale factor of a RayCastContour); even-odd rule at the level of the hit list: x is in a returned range iff 0 <= x < width, the number of hits KEPT after "
+                  "duplicate removal at or left of x is odd, and x is left of the last kept hit when an odd number is kept - tuples() drops it (pairs_even_odd, row_membership for any sorted "
+                  "arrangement of the hits, intercepts_on_line_membership, intercepts_on_column_membership; intercepts_on_line_generic: with no duplicate pair and an even hit count, membership "
+                  "is the parity of the solver hits). remove_duplicate_intercepts: the generated loop never exhausts its fuel and equals a fuel-free recursion (remove_duplicates_eq), returns a "
+                  "sub-list (sorted stays sorted), every removal is licensed by the duplicate condition at that moment (remove_duplicates_licensed), lists without a duplicate pair are returned "
+                  "unchanged; curves_are_neighbors is characterised (neighbors_spec). Columns: column_is_transposed_row_without_dedupe - the column closure is the row closure of the transposed "
+                  "curve table without duplicate removal and without the t = 0 hits; column_eq_transposed_row when that does not matter. solve_basis_for_t: exact set of returned parameters "
+                  "(solve_basis_mem), polynomial identity, soundness and completeness on the cubic branch relative to the external finder, residual < 1e-8 on the quadratic branch; "
+                  "row_hits_are_the_crossings: for a scanline through no curve end point (cubic branch, exact duplicate-free finder, bounding boxes containing their curves) the gathered hits are "
+                  "exactly the crossings (i, t, x_i(t)) with 0 < t < 1 and y_i(t) = y, each once - with intercepts_on_line_generic the even-odd crossing rule for generic scanlines. "
+                  "NOT proved: that the kept hits are exactly one per geometric crossing of the boundary (the purpose of duplicate removal) - this is searched on the real code against an "
+                  "independent even-odd oracle, and fails at vertices / edges / tangents (known findings). Defect mechanisms proved as theorems about the code as it is: closing_joint_not_neighbors, "
+                  "subpath_boundary_neighbors, closing_joint_witness (two diamonds scanned through their start vertices: interior of the first reported outside, gap between them inside - "
+                  "reproduced bit for bit on the real code), column_differs_from_transposed_row.",
+    "level_note": "Exact arithmetic over any ordered field: NaN, signed zeros and rounding are not modelled; sqrt and signum are arbitrary functions in the theorems; total_cmp is <=. "
+                  "Rust's sort_unstable_by is modelled by a stable insertion sort (it is one up to 20 elements); the row theorems are also stated for an arbitrary sorted arrangement of the hits. "
+                  "PathContour::from_path (to_curves, curve_is_tiny filter, bounding boxes) is not translated: the correspondence run rebuilds the curve table with the same public functions. "
+                  "debug_assert!(even number of intercepts) is dropped by the translator: debug builds panic where release builds drop the last hit. " + COMMON_NOTE,
+    "rule": "corr (bit-exact, Float): clip - RayCastContour::intercepts_on_line on ascending / limit-valued / unordered / NaN-inf range lists, 6 widths, 6 scale factors: closure argument and ranges; "
+            "solve - solve_basis_for_t with the answers of roots::find_roots_quadratic/cubic as input (random, monotone, straight, end/start/both on p, nearly quadratic, flat): coefficients and roots; "
+            "row / col - intercepts_on_line / intercepts_on_column on the fixed scenes of the theorems and on random path sets (circles, rotated circles, blobs, polygons, grid rectangles, "
+            "L shapes, holes, several sub-paths) at positions through vertices, 1 ulp beside vertices, at horizontal/vertical tangents, integer, random: every returned range. "
+            "search: the property on the real code - ranges finite / clipped / non-empty / sorted / disjoint, membership of samples farther than 0.05 from every edge against an even-odd oracle on two "
+            "flattenings, column against the transposed row, contour_point_is_inside. Non-trivial: the scan hits a curve (corr), any scene (search); distinct by input.",
+    "trusted_base": ["harness/src/c16.rs curve_table: PathContour::from_path rebuilt from to_curves / curve_is_tiny / bounding_box (private field `curves` is not observable)",
+                     "stable insertion sort stands for sort_unstable_by (identical up to 20 hits; lines with more hits and equal positions are counted, not compared)",
+                     "search oracle: even-odd winding on 48- and 384-segment flattenings, samples within 0.05 + 0.006 of an edge excluded"],
+    "assumptions": ["finite coordinates (no NaN) and exact arithmetic in the theorems",
+                    "the external root finders (crate roots) are parameters: soundness / completeness of solve_basis_for_t are relative to theirs"],
+}
+
 PROPS["C01"] = {
     "title": "Binary path arithmetic computes the point-set operation",
     "gen_modules": ["PathArith"],
@@ -286,4 +326,41 @@ PROPS["C09"] = {
             "against the per-curve minimum. Non-trivial: minimum not at an end point; distinct by input.",
     "trusted_base": ["search oracle: 1/4000-grid brute force with golden-section refinement on an evaluation independent of the library"],
     "assumptions": ["find_bezier_roots and distance_in_bezier_form are parameters of the theorems (not modelled)"],
+}
+
+PROPS["C07"] = {
+    "title": "Point-in-path agrees with the winding number",
+    "gen_modules": ["Basis", "Walk", "PointInPath", "PathRev"],
+    "corr_n": (4000, 80000),
+    "search_n": (200, 4000),
+    "technique": "Lean 4 theorems about path_contains_point translated WHOLE (bounds test, ray, loop with break, signed sum, != 0; ray_collisions as a parameter) and normal_at_pos / tangent_at_pos from "
+                 "point.rs / normal.rs on every run, plus a combinatorial winding number of closed polygons with a proof of ray independence + bit-exact Float mirror fed with the real collision lists "
+                 "+ exact winding-number oracle on the real code",
+    "level_text": "Partial. Proved for every path, point and WHATEVER ray_collisions returns (any ordered field): path_contains_point is false outside the bounding box and otherwise is exactly "
+                  "'the sum of signum(ray_direction . normal) over the collisions met before the first one with line_t > 1.0 is not 0' (contains_eq_signed_sum; for a list sorted by line_t these are the "
+                  "collisions with line_t <= 1, counted_eq_filter_of_sorted); the ray starts strictly beyond the maximum corner of the box in both coordinates and ends at the point "
+                  "(ray_starts_outside_box); the summand is the sign of tangent x ray_direction, the normal is the tangent turned a quarter turn, the tangent is the derivative of the curve at the "
+                  "nudged parameter (direction_eq_cross_sign, normal_is_rotated_tangent, tangent_is_derivative); the answer does not depend on the order of the list, on the starting vertex, or - when "
+                  "the counted collisions are transversal - on the direction of the path, GIVEN that ray_collisions returns the correspondingly re-labelled collisions (contains_perm_invariant, "
+                  "contains_start_vertex_invariant, contains_reversal_invariant, where the reversed curve list is the one of the generated BezierPath::reversed: reversePath_eq_reversed; tangent_collision_not_negated shows transversality is needed). Winding number: for every closed polygon, every point off "
+                  "its edges and any two rays whose lines avoid the vertices the signed crossing counts agree (winding_ray_independent: no topology, sector indicator + Pluecker relation + telescoping "
+                  "around the cycle; rayCross_ne_zero_iff_meets ties the crossing number to actual segment/ray intersection); a point outside a box containing the vertices has winding 0 "
+                  "(winding_zero_outside_box: the early return is sound); every crossing of the code's ray lies before the corner (crossings_before_corner). Link (polygon_contains_iff_winding): for a "
+                  "polygon given as a path of straight edges (as line_to builds them), IF the collision list is faithful (the counted collisions are exactly one per edge crossing the ray), "
+                  "path_contains_point = (winding number along ANY ray in general position != 0). NOT proved, searched on the real code only: that ray_collisions is faithful and equivariant "
+                  "(crossing search + the clean-up filters of ray.rs), and curved edges (Jordan-curve content): decided by the exact winding-number oracle on circles, blobs, polygons.",
+    "level_note": "ray_collisions (ray.rs:702 and its filters) is a parameter of every theorem, not modelled. The correspondence feeds the model with the list the real ray_collisions returns through its "
+                  "only public door, GraphPath::ray_collisions, which normalises the path direction: only clockwise paths (the others after reversal) whose graph keeps all curves are tied. "
+                  "signum(0) = 1 in the theorems (binary64: the sign of the zero decides); in binary64 max + 0.01 = max for |max| >= 2^47, so ray_starts_outside_box is an exact-arithmetic statement. " + COMMON_NOTE,
+    "rule": "corr: random closed paths (circles, rotated circles, blobs, convex/concave polygons, grid rectangles, L shapes, polygons with collinear vertices; either direction, any start vertex) x 10 query "
+            "points each (uniform in/around the box, level with vertices, ray through a vertex, on the boundary, on a vertex, ray towards an edge end, near the boundary - none excluded): the generated "
+            "path_contains_point at Float on the real bounding box, curves and collision list must return the implementation's answer, must ask ray_collisions for the same ray bit for bit, and every "
+            "normal and direction must agree bit for bit; plus normal_at_pos / tangent_at_pos on single curves incl. t = 0, 1, eps, 1-eps, outside [0,1]. The hypotheses of the theorems are evaluated on the "
+            "real lists and counted (hypothesis.*: stop-closed order, faithful list for polygons in general position, start-vertex equivariance). search: path_contains_point vs the exact "
+            "winding number of two flattenings (48 / 384 segments per curve), reversal and start-vertex invariance, 100 points per path; points within 0.1 of the boundary or violating the "
+            "precondition are excluded and counted (the latter are still evaluated and their agreement counted under outside_precondition.*). Non-trivial: at least one counted collision; distinct by input.",
+    "trusted_base": ["ray_collisions is not modelled (parameter); its output is taken from the real code in the correspondence",
+                     "search oracle: winding number by signed crossings of a horizontal ray on two flattenings of the path (harness/src/shapes.rs)"],
+    "assumptions": ["theorems are over exact arithmetic (any ordered field; signum 0 = 1, no NaN); `as i32` maps 1 to 1 and -1 to -1 (I32Spec)",
+                    "invariance and winding theorems assume what they state about the result of ray_collisions (re-labelled / faithful list); 0 <= f64::EPSILON <= 1, EPSILON != 1"],
 }
